@@ -83,7 +83,7 @@ class Ctx:
 
 def lake_build(targets, timeout=3600):
     """returns (ok, log).  Targets are module or library names."""
-    rc, out = sh(["lake", "build"] + list(targets), cwd=LEAN, timeout=timeout)
+    rc, out = sh(["lake", "build"] + list(targets), cwd=LEAN, timeout=timeout, env={"LEAN_NUM_THREADS": str(os.cpu_count() or 4)})
     return rc == 0, out
 
 
